@@ -225,10 +225,12 @@ fn record(
     FS_CALLS.fetch_add(1, Ordering::Relaxed);
     s.seq += 1;
     let seq = s.seq;
-    s.events.push(json!({
-        "e": "fs", "seq": seq, "t": tid, "call": call, "ck": chunk_of(file), "file": file,
-        "off": off, "len": len, "res": res, "fl": flags,
-    }));
+    if !s.quiet {
+        s.events.push(json!({
+            "e": "fs", "seq": seq, "t": tid, "call": call, "ck": chunk_of(file), "file": file,
+            "off": off, "len": len, "res": res, "fl": flags,
+        }));
+    }
     s.fslog.push(FsRec {
         seq,
         tid: tid.to_string(),
